@@ -1,0 +1,65 @@
+//go:build verif
+
+package common
+
+// Contracts for /verif (contract-based deductive verification). Comment-only.
+
+// C46: the operational-certificate counter of a pool never goes backwards, and an accepted
+// certificate's issue number becomes the stored one.
+//@ func (m *MessageAuthenticator) verifyKESPeriodRotation(poolID, opcert) (err)
+//@   props C46
+//@   requires nonnil: m != nil && opcert != nil
+//@   assigns m.kesOpCertCache[*]
+//@   ensures monotone: err == nil && old(poolID in m.kesOpCertCache) ==> opcert.IssueNumber >= old(m.kesOpCertCache[poolID])
+//@   ensures stored: err == nil && m.kesOpCertCache != nil ==> poolID in m.kesOpCertCache && m.kesOpCertCache[poolID] == opcert.IssueNumber
+//@   ensures reject: old(poolID in m.kesOpCertCache) && opcert.IssueNumber < old(m.kesOpCertCache[poolID]) ==> err != nil
+//@   ensures keep: err != nil ==> (poolID in m.kesOpCertCache) == old(poolID in m.kesOpCertCache) && m.kesOpCertCache[poolID] == old(m.kesOpCertCache[poolID])
+
+// C46: accepted only if ed25519.Verify returned true for the message's cold key, the certificate's
+// cold signature, and the encoding of exactly [KES key, issue number, KES period].
+//@ func (m *MessageAuthenticator) verifyOperationalCertificate(opcert, coldVerificationKey) (err)
+//@   props C46
+//@   attr trackcalls on
+//@   let body = unbox(callarg(cbor.Encode, 0), type([]any))
+//@   ensures sizes: err == nil ==> opcert != nil && len(coldVerificationKey) == 32 && len(opcert.ColdSignature) == 64
+//@   ensures verified: err == nil ==> called(ed25519.Verify) && callres(ed25519.Verify) &&
+//@       callarg(ed25519.Verify, 0) == coldVerificationKey && callarg(ed25519.Verify, 2) == opcert.ColdSignature
+//@   ensures signedbody: err == nil ==> called(cbor.Encode) && callres(cbor.Encode, 1) == nil && callarg(ed25519.Verify, 1) == callres(cbor.Encode, 0) &&
+//@       len(body) == 3 && unbox(body[0], type([]byte)) == opcert.KESVerificationKey &&
+//@       dyn(body[1]) == type(uint64) && unbox(body[1], type(uint64)) == opcert.IssueNumber &&
+//@       dyn(body[2]) == type(uint64) && unbox(body[2], type(uint64)) == opcert.KESPeriod && dyn(body[0]) == type([]byte)
+
+// C46: the message id must equal the id computed from the payload (Blake2b-256 of its encoding).
+//@ func (m *MessageAuthenticator) verifyMessageID(msg) (err)
+//@   props C46
+//@   attr trackcalls on
+//@   requires nonnil: msg != nil
+//@   ensures computed: err == nil ==> called(ComputeDmqMessageID) && callres(ComputeDmqMessageID, 1) == nil && callarg(ComputeDmqMessageID, 0) == old(msg.Payload)
+//@   ensures idmatch: err == nil && len(old(msg.MessageID)) > 0 ==> seq(old(msg.MessageID)) == seq(callres(ComputeDmqMessageID, 0)) && len(old(msg.MessageID)) == 32
+//@   ensures legacyid: err == nil && len(old(msg.MessageID)) == 0 ==> seq(old(msg.Payload.MessageID)) == seq(callres(ComputeDmqMessageID, 0)) && len(old(msg.Payload.MessageID)) == 32
+
+// C46: accepted only if an injected verifier returned (true, nil) for this message's signature, KES key
+// and period, or insecure mode was explicitly enabled; no verifier and not insecure => error.
+//@ func (m *MessageAuthenticator) verifyKESSignature(msg, slot) (err)
+//@   props C46
+//@   attr trackcalls on
+//@   requires nonnil: m != nil && msg != nil
+//@   ensures auth: err == nil ==> len(old(msg.KESSignature)) == 448 && len(old(msg.OperationalCertificate.KESVerificationKey)) == 32 &&
+//@       ((called(kesVerifier) && callres(kesVerifier, 0) && callres(kesVerifier, 1) == nil &&
+//@         callarg(kesVerifier, 1) == old(msg.KESSignature) && callarg(kesVerifier, 2) == old(msg.OperationalCertificate.KESVerificationKey) &&
+//@         callarg(kesVerifier, 3) == old(msg.Payload.KESPeriod) && callarg(kesVerifier, 0) == callres("cbor.Encode", 0)) ||
+//@        (called("(*Bool).Load") && callres("(*Bool).Load")))
+
+// C46: the whole check. With validation enabled, acceptance implies every step returned nil for this
+// message, the pool derived from the cold key is registered, and the certificate counter was accepted.
+//@ func (m *MessageAuthenticator) verifyMessageInternal(msg, slot) (err)
+//@   props C46
+//@   attr trackcalls on
+//@   requires nonnil: m != nil
+//@   ensures disabled: old(m.disableValidation) ==> err == nil
+//@   ensures steps: err == nil && !old(m.disableValidation) ==> msg != nil &&
+//@       called(verifyMessageID) && callres(verifyMessageID) == nil && callarg(verifyMessageID, 1) == msg &&
+//@       called(verifyOperationalCertificate) && callres(verifyOperationalCertificate) == nil &&
+//@       called(verifyKESSignature) && callres(verifyKESSignature) == nil && callarg(verifyKESSignature, 1) == msg &&
+//@       called(verifyKESPeriodRotation) && callres(verifyKESPeriodRotation) == nil &&
+//@       called(computePoolID) && callarg(verifyKESPeriodRotation, 1) == callres(computePoolID)
